@@ -154,6 +154,7 @@ func NewLookupPartitionStrategyWithMetricRegistry(
 	}
 
 	unknownPartition := NewLookupPartitionWithMetricRegistry("<unknown>", 0.0, limit, registry)
+	unknownPartition.UpdateLimit(limit)
 	strategy := &LookupPartitionStrategy{
 		partitions:       partitions,
 		unknownPartition: unknownPartition,
